@@ -64,4 +64,21 @@ def CliParsed.config (p : CliParsed) : RunConfig :=
   | some (.verify f b) => b.applyTo (f.applyTo { c with mode := .verify })
   | none => p.build.applyTo (p.flags.applyTo { c with mode := if p.needed then .inMemory else .build })
 
+/-- what `std::env::var("TXTPP_FILE")` can give `main` -/
+inductive EnvVar where
+  | unset                 -- `Err(NotPresent)`
+  | notUnicode            -- `Err(NotUnicode)`: set, but not valid UTF-8 (`Shell::run` never sets such a value: it passes a `&str`)
+  | val (s : Str)         -- `Ok(s)`
+deriving Repr, DecidableEq
+
+/-- the first statement of `main`: `if let Ok(f) = env::var(TXTPP_FILE) { if !f.is_empty() { return FAILURE } }` -/
+def EnvVar.refuses : EnvVar → Bool
+  | .val s => !s.isEmpty
+  | _ => false
+
+/-- `main`: the guard, then `Cli::parse` + `apply_to`; `none` = "Cannot run txtpp as a subcommand!", exit status failure,
+    before the command line is even looked at -/
+def entry (txtppFile : EnvVar) (p : CliParsed) : Option RunConfig :=
+  if txtppFile.refuses then none else some p.config
+
 end Txt
